@@ -112,16 +112,27 @@ func (v *collator_[V]) GetMaximum() int {
 // Public
 
 func (v *collator_[V]) CompareValues(first V, second V) bool {
-	v.depth_ = 0 // A previous call may have ended in a panic.
-	return v.compareValues(ref.ValueOf(first), ref.ValueOf(second))
+	return v.traversal().compareValues(ref.ValueOf(first), ref.ValueOf(second))
 }
 
 func (v *collator_[V]) RankValues(first V, second V) Rank {
-	v.depth_ = 0 // A previous call may have ended in a panic.
-	return v.rankValues(ref.ValueOf(first), ref.ValueOf(second))
+	return v.traversal().rankValues(ref.ValueOf(first), ref.ValueOf(second))
 }
 
 // Private
+
+// This private instance method returns the state of one traversal: a copy of
+// this collator with its own depth counter starting at zero.  Each public call
+// works on its own copy so that one collator (for example the collator that a
+// set hands on to the sets derived from it) can be used from several
+// goroutines at once, and so that a call that ended in a panic leaves nothing
+// behind.
+func (v *collator_[V]) traversal() *collator_[V] {
+	return &collator_[V]{
+		class_:   v.class_,
+		maximum_: v.maximum_,
+	}
+}
 
 func (v *collator_[V]) compareArrays(first ref.Value, second ref.Value) bool {
 	// Check for maximum traversal depth.
